@@ -1377,6 +1377,9 @@ class UnitQuaternion(Quaternion):
         """
         assert base.isvector(w, 3), 'w must be a 3-vector'
         w = base.getvector(w)
+        if base.iszerovec(w):
+            # zero rotation vector: identity
+            return cls()
         theta = base.norm(w)
         s = math.cos(theta / 2)
         v = math.sin(theta / 2) * base.unitvec(w)
